@@ -2655,6 +2655,7 @@ def extract_all(repo):
         data.setdefault('nested_defs', {})[tag] = mod['nested_defs']
         data.setdefault('has_ref_field', {})[tag] = mod['has_ref_field']
         data['local'][tag] = sorted(mod['local'])
+        data.setdefault('noraise_local', {})[tag] = sorted(mod.get('noraise_local', ()))
     return data
 
 
@@ -2729,6 +2730,17 @@ def lean_ctables(data):
                       + ', '.join(_ls(x) for x in ins) + '])')
     L.append('def cCacheTags : List (Backend × String × List String × List String) := [\n  '
              + ',\n  '.join(ct) + ']')
+    L.append('/-- the exits through exceptions raised inside callees on which an ordinary function still owns '
+             'something, as the PYTHON twin of the rules sees them (harness/checks_cwrap.py `exit_leaks`): '
+             '(back end, function, site, what is still owned); first occurrences, in table order -/')
+    xl = []
+    for tag, name, site, held in data.get('exit_leaks_py', []):
+        xl.append(f'(.{tag}, {_ls(name)}, {_ls(site)}, [' + ', '.join(f'({_ls(d)}, {k})' for d, k in held) + '])')
+    L.append('def cExitLeaksPy : List (Backend × String × String × List (String × Int)) := [\n  '
+             + ',\n  '.join(xl) + ']')
+    L.append('/-- the `cdef` functions of each module that the reader classifies as unable to raise -/')
+    L.append('def cNoRaiseLocal : List (Backend × List String) := [' + ', '.join(
+        f'(.{tag}, [' + ', '.join(_ls(x) for x in xs) + '])' for tag, xs in data.get('noraise_local', {}).items()) + ']')
     L.append('end Gen')
     return '\n'.join(L) + '\n'
 
@@ -2749,5 +2761,7 @@ def lean_ctables_stub(err):
          'def cUncovered : List CUncovered := []',
          'def cUncoveredText : List (Backend × String × String) := []',
          'def cCacheTags : List (Backend × String × List String × List String) := []',
+         'def cExitLeaksPy : List (Backend × String × String × List (String × Int)) := []',
+         'def cNoRaiseLocal : List (Backend × List String) := []',
          'end Gen']
     return '\n'.join(L) + '\n'
